@@ -32,3 +32,77 @@ func VerifH_C04_int() {
 	vCover("C04.int.multibyte", len(out)-start == 3)
 	vCover("C04.int.max", idx == ^uint64(0))
 }
+
+// One AppendHeader call from an arbitrary small encoder state that is in sync
+// with a reference decoder (0..2 dynamic entries, arbitrary limits, an
+// optional pending table-size change), for an arbitrary field: name is
+// arbitrary bytes (0..2) or one of five static-table names, value arbitrary
+// bytes (0..2) or that entry's static value; store and sensitive flags
+// arbitrary; DisableDynamicTable arbitrary; Huffman off. The bytes emitted
+// must be one valid RFC 7541 block prefix that the reference decoder turns
+// back into exactly this field, with the two dynamic tables still equal.
+//
+//verif:harness prop=C04 unwind=24 timeout=600
+func VerifH_C04_step() {
+	hp, t := vC03State(vRange(0, 2))
+	hp.DisableCompression = true
+	hp.DisableDynamicTable = vBool()
+	if vBool() {
+		ns := uint32(vU8())
+		hp.SetMaxTableSize(ns)
+		t.limit = ns // the peer advertised ns; its decoder still holds the old table
+	}
+	var key, value []byte
+	sel := vRange(0, 5)
+	names := [6]int{0, 4, 32, 16, 2, 23} // :path, cookie, accept-encoding, :method, authorization
+	if sel == 0 {
+		key = vBytes(vRange(0, 2))
+	} else {
+		key = []byte(refStatic[names[sel]-1][0])
+	}
+	if sel != 0 && vBool() {
+		value = []byte(refStatic[names[sel]-1][1])
+	} else {
+		value = vBytes(vRange(0, 2))
+	}
+	store := vBool()
+	hf := &HeaderField{sensible: vBool()}
+	hf.SetBytes(key, value)
+	pre := vBytes(vRange(0, 1))
+
+	out := hp.AppendHeader(append([]byte(nil), pre...), hf, store)
+
+	vAssert(len(out) > len(pre), "C04.step.emits")
+	for i := range pre {
+		vAssert(out[i] == pre[i], "C04.step.prefix-kept")
+	}
+	blk := out[len(pre):]
+	pos, got := 0, false
+	var f refField
+	for pos < len(blk) && !got {
+		ff, upd, used, st := refHpackRep(t, true, blk[pos:])
+		vAssert(st == refOK, "C04.step.valid-block")
+		if st != refOK {
+			return
+		}
+		pos += used
+		if !upd {
+			f, got = ff, true
+		}
+	}
+	vAssert(got, "C04.step.one-field")
+	vAssert(pos == len(blk), "C04.step.no-trailing-bytes")
+	if got {
+		vAssert(refFieldIs(&f, key, value), "C04.step.same-field")
+		if hf.sensible {
+			vAssert(f.never, "C04.step.sensitive-is-never-indexed")
+		}
+	}
+	vAssert(!hp.pendingSizeUpdate, "C04.step.size-change-announced")
+	vAssert(refTableIs(t, hp), "C04.step.tables-in-sync")
+	vAssert(hp.maxTableSize == t.max, "C04.step.same-max")
+	vAssert(hp.DynamicSize() <= hp.maxTableSize && hp.maxTableSize <= t.limit, "C04.step.within-peer-limit")
+	vCover("C04.step.indexed", got && f.whole)
+	vCover("C04.step.inserted", got && len(t.ents) > 0 && !hf.sensible && sel == 0 && len(key) == 2)
+	vCover("C04.step.update", len(blk) > 0 && blk[0]&0xe0 == 0x20)
+}
